@@ -1,11 +1,16 @@
 (* C01 — every SELFIES string decodes to a syntactically valid, valence-valid SMILES.
-   Proved here for ALL strings and ALL accepted tables: the molecular graph the decoder hands to its
-   writer is valence-valid (proofs/DecoderInv.v, proofs/DecoderSum.v).  The step from that graph to the
-   printed string (writer vs. an independent reader) is not a theorem: it is refuted at ring label 100
-   (below) and otherwise judged on every run by the extracted reader on the implementation's output. *)
+   PROVED END TO END (C01_valid_smiles below) for ALL strings, ALL tables with '?' and both values of
+   attribute: whenever fewer than 100 pairs of atoms are joined by ring bonds, the string the decoder
+   returns is accepted by the independent reader (spec/Reader.v) and the molecule read from it is a
+   simple graph, in Kekule form, every atom within the capacity the table gives it.
+   Route: graph invariant of derivation + ring pass (DecoderInv, DecoderSum, DecoderTree), shape of the
+   decoded atoms and read-back of their tokens (WriterAtoms), tokenisation of the printed string
+   (WriterLex, WriterToks), simulation of the reader on the writer's traversal (WriterSim), validity of
+   the molecule read (WriterFinal).  The bound is sharp: with 100 ring bonds the writer prints %100 and
+   the statement is REFUTED on the faithful model (C01_label_refuted: known finding). *)
 From Coq Require Import String List ZArith NArith Bool.
 Import ListNotations.
-From Selfies Require Import Base Generated Lex Atoms Decoder StateFacts Reader DecoderBasics DecoderInv DecoderTree DecoderSum TokFacts.
+From Selfies Require Import Base Generated Lex Atoms Decoder StateFacts Reader DecoderBasics DecoderInv DecoderTree DecoderSum TokFacts WriterFinal.
 Local Open Scope string_scope.
 Local Open Scope Z_scope.
 
@@ -119,6 +124,41 @@ Example C01_graph_example :
             /\ natoms m = 6%nat /\ map (valence m) (seq 0 6) = [3; 4; 1; 3; 4; 1].
 Proof. eexists. split; [vm_compute; reflexivity|]. split; vm_compute; reflexivity. Qed.
 
+
+(* ---------- the main theorem ---------- *)
+Theorem C01_valid_smiles : forall T s attribute out maps,
+  (exists c, assoc (lit "?") T = Some c) -> symbols_short s ->
+  decoder T s false attribute = Ok (out, maps) ->
+  (forall m, decode_graph T s false attribute = Ok m -> (length (ring_pairs m) < 100)%nat) ->
+  valid_smiles_under T out = true.
+Proof.
+  intros T s attribute out maps Hq Hs E Hr.
+  apply (decoder_output_valid T s false attribute out maps Hq); [|exact E|exact Hr].
+  apply tokenize_all_ok. now apply digits_ok_of_symbols.
+Qed.
+
+(* with either flag, under the condition on the token streams of C08 *)
+Theorem C01_valid_smiles_any_flag : forall T s compat attribute out maps,
+  (exists c, assoc (lit "?") T = Some c) -> frags_ok s compat ->
+  decoder T s compat attribute = Ok (out, maps) ->
+  (forall m, decode_graph T s compat attribute = Ok m -> (length (ring_pairs m) < 100)%nat) ->
+  valid_smiles_under T out = true.
+Proof. exact decoder_output_valid. Qed.
+
+(* non-vacuity: the hypotheses hold of a string with branches, rings and clipped symbols *)
+Example C01_valid_smiles_example :
+  let s := lit "[C][=C][Branch1][C][=O][C][=C][Ring1][Branch1][F][#N].[13CH2-1][Ring1][C]" in
+  symbols_short s /\
+  (exists m, decode_graph default_constraints s false false = Ok m /\ (length (ring_pairs m) < 100)%nat) /\
+  (exists out maps, decoder default_constraints s false true = Ok (out, maps) /\ valid_smiles_under default_constraints out = true).
+Proof.
+  split; [|split].
+  - intros frag t Hf Ht. right. vm_compute in Hf.
+    repeat (destruct Hf as [<-|Hf]; [vm_compute in Ht; repeat (destruct Ht as [<-|Ht]; [vm_compute; discriminate|]); destruct Ht|]). destruct Hf.
+  - eexists. split; [vm_compute; reflexivity|vm_compute; repeat constructor].
+  - eexists. eexists. split; vm_compute; reflexivity.
+Qed.
+
 (* non-vacuity of the bound: 99 rings are still fine *)
 Theorem C01_ninety_nine_rings :
   exists out, decoder_str default_constraints
@@ -135,5 +175,7 @@ Print Assumptions C01_ninety_nine_rings.
 Print Assumptions C01_graph_valence_partial.
 Print Assumptions C01_graph_shape_partial.
 Print Assumptions C01_graph_forest_partial.
+Print Assumptions C01_valid_smiles.
+Print Assumptions C01_valid_smiles_any_flag.
 Print Assumptions C01_graph_valence_short_symbols.
 Print Assumptions C01_output_is_written_graph.
